@@ -519,10 +519,17 @@ def parse_cbmc(h, data, res, wdir):
         res["reasons"].append("cbmc produced no results: " + ("; ".join(errors) or str(status)))
         return
     res["checks"] = len(results)
+    n_err = sum(1 for r in results if r.get("status") not in ("SUCCESS", "FAILURE"))
+    if status == "error" or n_err:
+        res["verdict"] = "INCONCLUSIVE"
+        res["reasons"].append("solver error (%d checks without verdict): %s" % (n_err, "; ".join(errors)[:200] or status))
     for r in results:
         sl = r.get("sourceLocation", {})
         pclass = sl.get("propertyClass", "")
         desc = KANI_ID_RE.sub("", r.get("description", ""))
+        m = re.match(r'concat!\s*\(\s*"BSV: "\s*,\s*"(.*)"\s*\)$', desc, re.S)
+        if m:
+            desc = "BSV: " + m.group(1)
         prop = r.get("property", "")
         st = r.get("status")
         loc = "%s:%s in %s" % (sl.get("file", "?"), sl.get("line", "?"), sl.get("function", "?"))
@@ -532,7 +539,7 @@ def parse_cbmc(h, data, res, wdir):
                                   "loc": loc})
             continue
         res["by_class"][cls] = res["by_class"].get(cls, 0) + 1
-        if st != "SUCCESS":
+        if st == "FAILURE":
             f = {"class": cls, "name": prop, "desc": desc, "loc": loc, "status": st,
                  "line": sl.get("line"), "file": sl.get("file"), "function": sl.get("function", "")}
             if "trace" in r:
@@ -548,7 +555,7 @@ def extract_inputs(trace):
             continue
         lhs = s.get("lhs", "")
         fn = s.get("sourceLocation", {}).get("function", "")
-        if "any_raw" in fn and ("return_value" in lhs or lhs.startswith("var_0")) or "nondet" in lhs:
+        if "any_raw" in fn and lhs == "var_0":
             v = s.get("value", {})
             vals.append({"lhs": lhs[-60:], "fn": fn[-80:], "value": v.get("data", v.get("binary", str(v)[:80]))})
     return vals[:200]
